@@ -10,7 +10,7 @@ Model: `Model/UePolicy.lean` (the uePolicyContainer package), tied to the Go cod
   its 16-bit length field, a policy part's `Len` is 0 or matches its contents, PLMN octets carry valid digits) decode to the
   same structure with every length recomputed from content (`norm…`);
 * PLMN: `SetPlmnDigit` yields the TS 24.008 10.5.1.13 octets — the ones `PlmnIDToNas` produces for the same MCC / MNC — for
-  every MCC 100..999 and MNC 10..999, and the parsers read the same numbers back.
+  every MCC 100..999 and MNC 9..999 (the setter rejects 0..8; an MNC below 100 is a two-digit MNC, so 9 is "09"), and the parsers read the same numbers back.
 Defects F9, F10 and F17 were repaired in /repo.
 -/
 namespace NasVerif.Props.C18
@@ -60,7 +60,7 @@ theorem decodeMsg_total (b : Bytes) : NoPanic (decodeMsg b) := by
           · exact np_err _
 
 /-- `SetPlmnDigit` (sublist and sub-result) produces the TS 24.008 10.5.1.13 octets of the PLMN, the same as `PlmnIDToNas` -/
-theorem setPlmnDigit_spec (mcc mnc : Nat) (h1 : 100 ≤ mcc) (h2 : mcc ≤ 999) (h3 : 10 ≤ mnc) (h4 : mnc ≤ 999) :
+theorem setPlmnDigit_spec (mcc mnc : Nat) (h1 : 100 ≤ mcc) (h2 : mcc ≤ 999) (h3 : 9 ≤ mnc) (h4 : mnc ≤ 999) :
     ∃ a b c, setPlmnDigit mcc mnc = .ok (a, b, c) ∧ [a, b, c] = (plmnOfNumbers mcc mnc).octets ∧
       plmnNumbers a b c = some (mcc, mnc) := by
   have hd1 : mcc / 100 < 10 := by omega
@@ -92,7 +92,7 @@ theorem setPlmnDigit_spec (mcc mnc : Nat) (h1 : 100 ≤ mcc) (h2 : mcc ≤ 999) 
 
 /-- ... and that PLMN is the one whose text the other converters of the library produce / accept: `PlmnIDToNas` on the
 decimal text of the same numbers gives the same three octets -/
-theorem setPlmnDigit_eq_plmnIDToNas (mcc mnc : Nat) (h1 : 100 ≤ mcc) (h2 : mcc ≤ 999) (h3 : 10 ≤ mnc) (h4 : mnc ≤ 999) :
+theorem setPlmnDigit_eq_plmnIDToNas (mcc mnc : Nat) (h1 : 100 ≤ mcc) (h2 : mcc ≤ 999) (h3 : 9 ≤ mnc) (h4 : mnc ≤ 999) :
     ∃ a b c, setPlmnDigit mcc mnc = .ok (a, b, c) ∧
       NasVerif.Model.Convert.plmnIDToNas (plmnOfNumbers mcc mnc).mccText (plmnOfNumbers mcc mnc).mncText = .ok [a, b, c] := by
   obtain ⟨a, b, c, hs, ho, _⟩ := setPlmnDigit_spec mcc mnc h1 h2 h3 h4
